@@ -184,6 +184,9 @@ partial def parseTest (j : Json) : Except String Test :=
     | "pass" => pure (.body .pass) | "fail" => pure (.body .fail) | "error" => pure (.body .error) | "skip" => pure (.body .skip)
     | s => throw s!"bad outcome {s}"
   | .error _ =>
+    match j.getObjVal? "logs_bad" with
+    | .ok t => do pure (.logsBad (← parseTest t))
+    | .error _ =>
     match j.getObjVal? "swaps" with
     | .ok t => do pure (.swaps (← parseTest t))
     | .error _ =>
@@ -245,8 +248,9 @@ def runCase (j : Json) : Except String Json := do
   | "test" => do
     let t ← (j.getObjVal? "test") >>= parseTest
     let d ← j.getObjValAs? Nat "default"
-    let r := VM.runCase t d (d + 1) []
-    pure (Json.mkObj [("seen", toJson r.seen), ("final", toJson r.default), ("created", toJson (r.fresh - (d + 1)))])
+    let r := VM.runCase t d (d + 1) [] [] []
+    pure (Json.mkObj [("seen", toJson r.seen), ("final", toJson r.default), ("created", toJson (r.fresh - (d + 1))),
+                      ("reported", toJson r.reported.length)])
   | _ => throw s!"bad kind {kind}"
 
 partial def loop (h : IO.FS.Stream) : IO Unit := do
